@@ -1395,7 +1395,38 @@ impl<'r> Sh<'r> {
             // the value of the failing expression once it is repaired: 6
             let want = if truth { 6 } else { 7 };
             let coin = self.rng.chance(1, 2);
-            let b = match self.rng.below(8) {
+            // FOR bounds and the SELECT CASE expression: only with ways out that do not
+            // continue "after" the half-executed line
+            let kinds = if matches!(mode, 0 | 3 | 4) && !in_sub { 11 } else { 8 };
+            let b = match self.rng.below(kinds) {
+                8 | 9 => {
+                    let body = vec![self.trace(&["W6%"])];
+                    let (from, to, step) = match self.rng.below(3) {
+                        0 => (quot(1), Expr::Int(2), None),
+                        1 => (Expr::Int(1), quot(2), None),
+                        _ => (Expr::Int(1), Expr::Int(3), Some(quot(2))),
+                    };
+                    self.st(StmtKind::For {
+                        var: "W6%".into(),
+                        from,
+                        to,
+                        step,
+                        body,
+                    })
+                }
+                10 => {
+                    let c1 = vec![self.trace(&[])];
+                    let c2 = vec![self.trace(&["G1%"])];
+                    let ce = vec![self.trace(&[])];
+                    self.st(StmtKind::Select {
+                        expr: quot(want),
+                        cases: vec![
+                            (vec![CaseSpec::Simple(Expr::Int(1))], c1),
+                            (vec![CaseSpec::Simple(Expr::Int(6))], c2),
+                        ],
+                        else_b: if coin { Some(ce) } else { None },
+                    })
+                }
                 0 => {
                     let then_b = vec![self.trace(&["G1%"]), self.trace(&[])];
                     let else_b = vec![self.trace(&[])];
